@@ -43,6 +43,12 @@ Forms == [
   turbofnptr2  |-> <<"f", "::", "<", "fn", "G(", "-", ">", "B", ",", "A", ">", "G(">>,
   qpath        |-> <<"<", "A", "as", "T", "<", "B", ",", "X", ">", ">", "::", "X">>,
   qpathcall    |-> <<"<", "A", "as", "T", "<", "B", ",", "X", ">", ">", "::", "f", "G(">>,
+  \* the opening `<` directly followed by punctuation (proc_macro spacing Joint): `<&A as T<B, X>>::X`
+  qpathref     |-> <<"<", "&", "A", "as", "T", "<", "B", ",", "X", ">", ">", "::", "X">>,
+  qpathptr     |-> <<"<", "*", "const", "A", "as", "T", "<", "B", ",", "X", ">", ">", "::", "X">>,
+  qpathglobal  |-> <<"<", "::", "a", "::", "A", "as", "T", "<", "B", ",", "X", ">", ">", "::", "X">>,
+  qpathgeneric |-> <<"<", "&", "M", "<", "K", ",", "V", ">", "as", "T", ">", "::", "X">>,
+  turboref     |-> <<"f", "::", "<", "&", "A", ",", "B", ">", "G(">>,
   cast         |-> <<"x", "as", "u8">>,
   castgeneric1 |-> <<"x", "as", "M", "<", "K", ">">>,
   castgeneric2 |-> <<"x", "as", "M", "<", "K", ",", "V", ">">>,
